@@ -294,7 +294,7 @@ func runCheck(repo, verif, prop, tier string, verbose bool) int {
 	ev.Coverage = map[string]interface{}{
 		"obligations":              total,
 		"discharged":               discharged,
-		"checker_cmd":              fmt.Sprintf("/verif/bin/gvc check %s --tier %s  (VCs generated from go/ssa of /repo's working tree; each obligation is one SMT-LIB query, solvers raced: z3-new 5.1.0, z3 4.8.12, cvc5 1.0, %ds per query)", prop, tier, timeout),
+		"checker_cmd":              fmt.Sprintf("/verif/bin/gvc check %s --tier %s  (VCs generated from go/ssa of /repo's working tree; each obligation is one SMT-LIB query; back ends z3 5.1.0 (smt.auto_config=false), z3 5.1.0, z3 4.8.12, cvc5 1.0, staged then raced; budget per query = deterministic resource limits worth about %d s on an idle core)", prop, tier, timeout),
 		"trusted_base":             trusted,
 		"functions_under_contract": funcs,
 		"function_reports":         res.reports,
